@@ -49,6 +49,7 @@ InitState ==
     resTag   |-> [i \in Id |-> 0],
     resErr   |-> [i \in Id |-> "none"],        \* notfound|complete|collision|transport|read
     wire     |-> <<>>,                         \* replies in flight: [id, tag, bad]
+    damaged  |-> {},                           \* tags of replies whose header is intact but whose body is not well-formed
     closed   |-> FALSE,
     sent     |-> <<>>,                         \* ids delivered to the server, in order
     pushed   |-> <<>>,                         \* history: id of the reply with tag k (0 = garbage)
@@ -100,7 +101,9 @@ FutStep(s, t) ==
            LET m == [s EXCEPT !.mapHolder = t] IN
            IF s.slot[t] = "ready"
            THEN ReleaseRx(ReleaseMap(
-                  Finish([m EXCEPT !.slot[t] = "complete"], t, "ok", s.parked[t], "none")))
+                  IF s.parked[t] \in s.damaged      \* the body is parsed by the owner, when it takes the reply
+                  THEN Finish([m EXCEPT !.slot[t] = "complete"], t, "err", 0, "read")
+                  ELSE Finish([m EXCEPT !.slot[t] = "complete"], t, "ok", s.parked[t], "none")))
            ELSE IF s.slot[t] = "pending"
            THEN ReleaseMap([m EXCEPT !.pc[t] = "reading"])
            ELSE IF s.slot[t] = "complete"
@@ -216,6 +219,9 @@ Dup(s, i)     == [PushReply(s, i) EXCEPT !.faulty = TRUE]
 Garbage(s)    == [s EXCEPT !.wire = Append(@, [id |-> 0, tag |-> Tag(s), bad |-> TRUE]),
                            !.pushed = Append(@, 0), !.faulty = TRUE]
 Close(s)      == [s EXCEPT !.closed = TRUE, !.faulty = TRUE]
+(* the answer to request i with an intact <rpc-reply message-id=i> start tag and a body that is not    *)
+(* well-formed: it belongs to i, whoever takes it off the transport; only i's caller sees the error *)
+BadBody(s, i) == [PushReply(s, i) EXCEPT !.answered = @ \cup {i}, !.damaged = @ \cup {Tag(s)}]
 CanReply(s, i) == i \in SentSet(s) /\ i \notin s.answered
 CanStray(s, i) == i \notin SentSet(s)          \* an id that is not outstanding (maybe not yet used)
 CanDup(s, i)   == i \in s.answered
@@ -247,8 +253,12 @@ NoOneLeftWaiting(s) ==
 (* the map lock to be held by an rpc() suspended in send).  KnownLoss names that deviation; the    *)
 (* strict property is NoOneLeftWaiting /\ NoLoss.                                                  *)
 NoLoss(s) == s.lost = {}
+Dmg(s, t) == \E k \in s.damaged : s.pushed[k] = t
 SurvivorsOk(s) ==
-  (~s.faulty) => \A t \in Id : s.pc[t] = "done" => s.resKind[t] = "ok"
+  (~s.faulty) => \A t \in Id : s.pc[t] = "done" => (s.resKind[t] = "ok" \/ Dmg(s, t))
+(* a reply with a damaged body fails the request it answers and nobody else *)
+DamageStaysWithOwner(s) ==
+  (~s.faulty) => \A t \in Id : s.pc[t] = "done" => ((s.resKind[t] = "err") = Dmg(s, t))
 (* C07 at session level: after the peer closed, a quiescent state has no waiting future *)
 CloseIsError(s) ==
   (Quiet(s) /\ s.closed /\ s.sendMode = "free") => \A t \in Id : ~FutLive(s, t)
